@@ -73,6 +73,7 @@ type User struct {
 // Config fixes the (small) genesis world. Every field has a default.
 type Config struct {
 	ValStakes       []int64 // whole TRB self-delegated by each genesis validator
+	NoTeam          bool    // the dispute genesis carries no team address (params validation accepts that)
 	NumUsers        int
 	UserBalance     int64 // loya
 	MaxValidators   uint32
@@ -144,6 +145,7 @@ type World struct {
 	Ledgers map[string]*famLedger
 	// Claimed: deposit ids the bridge monitor has seen turned into tokens (C14); copy-on-write.
 	Claimed map[uint64]bool
+	SupplyClaimed map[uint64]bool // deposit ids whose amount the supply ledger has already counted (C03)
 }
 
 // BlockPhases are module balances sampled after EndBlocker and after BeginBlocker.
@@ -343,6 +345,9 @@ func NewWorld(cfg Config) *World {
 	var dg disputetypes.GenesisState
 	cdc.MustUnmarshalJSON(gs[disputetypes.ModuleName], &dg)
 	dg.Params.TeamAddress = w.Team.Acc
+	if cfg.NoTeam {
+		dg.Params.TeamAddress = nil // the default genesis carries a default team address
+	}
 	gs[disputetypes.ModuleName] = cdc.MustMarshalJSON(&dg)
 
 	if cfg.Cyclelist != nil {
